@@ -730,6 +730,9 @@ class Generator(object):
                 old_shapes[label] = shape
         self.cur_loop = (owner, lp, L)
         if ls.get('local'):
+            # names for values at the start of the iteration (fresh, never-assigned spec scalars; this point is passed once per path)
+            for nvar, nval in ls['local'].get('names', lambda LL: [])(L):
+                self.emit_assume(nvar.eq(nval), 'name for the value at the start of the iteration')
             # the hypotheses of the local iteration lemma must hold here, at the start of the iteration, in context
             for lab, pfact in ls['local']['pre'](L):
                 self.emit_assert(pfact, '%s.local_pre.%s[%s]' % (base_id, lab, self.cfgname), 'inv_step')
@@ -739,6 +742,8 @@ class Generator(object):
         self.stmts(lp.body, spec)
         if ls.get('local'):
             pre = ls['local']['pre'](L)
+            # in the array-free harness the names are hypotheses (they are definitions of fresh scalars, assumed in context above)
+            pre = list(pre) + [('name_%d' % jn, nvar.eq(nval)) for jn, (nvar, nval) in enumerate(ls['local'].get('names', lambda LL: [])(L))]
             Lend = LoopCtx(owner, lp)
             Lend.ns = getattr(lp, 'ns_end', lp.ns)
             post = ls['local']['post'](Lend)
